@@ -26,6 +26,7 @@ mod eng_cell;
 mod child;
 mod eng_hrlive;
 mod eng_idle;
+mod eng_fault;
 mod eng_iso;
 
 use common::*;
@@ -46,6 +47,7 @@ fn engines() -> Vec<Box<dyn Engine>> {
     v.push(Box::new(eng_cell::CellEngine::default()));
     v.push(Box::new(eng_hrlive::HrLiveEngine));
     v.push(Box::new(eng_idle::IdleEngine));
+    v.push(Box::new(eng_fault::FaultEngine));
     v.push(Box::new(eng_iso::IsoEngine::default()));
     v
 }
